@@ -382,6 +382,15 @@ def o_real(ctx, case):
               f"{M.name}.add on {g} ({rel}) != affine law", {"fn": "add"})
     r = m.add(lq, lp)
     ctx.check(M.back(g, r) == want, "real", "add_swapped", case, "add(Q,P) != affine law", {"fn": "add"})
+    if lp is not None and lq is not None:
+        try:
+            r = m.add(list(lp), lq)          # the same point held in a list: the law cannot depend on the container
+        except TypeError:
+            ctx.label("B:add:list_refused")
+        else:
+            ctx.check(M.back(g, tuple(r)) == want, "real", "add_container", case,
+                      "add(list(P), Q) != affine law", {"fn": "add"})
+        ctx.label("B:add:list_point")
     r = m.double(lp)
     ctx.check(M.well_formed(g, r) and M.back(g, r) == C.add(g, P, P), "real", "double", case,
               "double != affine law", {"fn": "double"})
